@@ -66,20 +66,21 @@ type loopInfo struct {
 }
 
 type summarizer struct {
-	p       *Program
-	f       *ssa.Function
-	loops   []*loopInfo
-	loopOf  map[*ssa.BasicBlock]*loopInfo // innermost
-	memo    map[ssa.Value]*Term
-	pcMemo  map[*ssa.BasicBlock]*Term
-	inprog  map[ssa.Value]bool
-	ord     *ordinals // shared with inlined callees
-	subst   map[*ssa.Parameter]*Term
-	parent  *summarizer
-	depth   int
-	inlined map[*ssa.Call]*summarizer
-	sum     *Summary
-	nameMap func(string) string // canonical names for callees (spec_ prefix stripping)
+	p          *Program
+	f          *ssa.Function
+	loops      []*loopInfo
+	loopOf     map[*ssa.BasicBlock]*loopInfo // innermost
+	memo       map[ssa.Value]*Term
+	pcMemo     map[*ssa.BasicBlock]*Term
+	inprog     map[ssa.Value]bool
+	ord        *ordinals // shared with inlined callees
+	storeIndex map[string][]*ssa.Store
+	subst      map[*ssa.Parameter]*Term
+	parent     *summarizer
+	depth      int
+	inlined    map[*ssa.Call]*summarizer
+	sum        *Summary
+	nameMap    func(string) string // canonical names for callees (spec_ prefix stripping)
 }
 
 func Summarize(p *Program, f *ssa.Function) *Summary {
@@ -860,10 +861,85 @@ func (s *summarizer) loadTerm(x *ssa.UnOp) *Term {
 	case *ssa.Global:
 		return s.term(a)
 	}
+	// a field/element of non-local memory that this function assigned before (s.f = v; ... s.f ...): the load sees the stored value
+	if fwd := s.forwardedStore(x); fwd != nil {
+		return fwd
+	}
 	t := s.term(x.X)
 	// pointers are identified with the objects they point to
 	c := *t
 	return typed(&c, x.Type())
+}
+
+// forwardedStore: the value of the closest store to the same address expression that dominates the load.
+func (s *summarizer) forwardedStore(ld *ssa.UnOp) *Term {
+	switch ld.X.(type) {
+	case *ssa.FieldAddr, *ssa.IndexAddr:
+	default:
+		return nil
+	}
+	if s.storeIndex == nil {
+		s.storeIndex = map[string][]*ssa.Store{}
+		for _, b := range s.f.Blocks {
+			for _, in := range b.Instrs {
+				if st, ok := in.(*ssa.Store); ok {
+					switch st.Addr.(type) {
+					case *ssa.FieldAddr, *ssa.IndexAddr:
+						if k := s.addrKey(st.Addr); k != "" {
+							s.storeIndex[k] = append(s.storeIndex[k], st)
+						}
+					}
+				}
+			}
+		}
+	}
+	k := s.addrKey(ld.X)
+	if k == "" {
+		return nil
+	}
+	var best *ssa.Store
+	for _, st := range s.storeIndex[k] {
+		if !s.storeDominates(st, ld) {
+			continue
+		}
+		if best == nil || s.storeDominates(best, st) {
+			best = st
+		}
+	}
+	if best == nil {
+		return nil
+	}
+	return s.term(best.Val)
+}
+
+// addrKey: a syntactic key of an address expression over SSA values (same base value, same field/const-index path).
+func (s *summarizer) addrKey(v ssa.Value) string {
+	switch x := v.(type) {
+	case *ssa.FieldAddr:
+		if b := s.addrKey(x.X); b != "" {
+			return b + "." + fieldName(x.X.Type(), x.Field)
+		}
+	case *ssa.IndexAddr:
+		if k, ok := x.Index.(*ssa.Const); ok && k.Value != nil {
+			if b := s.addrKey(x.X); b != "" {
+				return b + "[" + k.Value.ExactString() + "]"
+			}
+		}
+		return ""
+	case *ssa.Parameter:
+		return fmt.Sprintf("P%d", s.paramIndex(x))
+	case *ssa.FreeVar:
+		return "FV:" + x.Name()
+	case *ssa.Global:
+		return "G:" + x.Name()
+	case *ssa.UnOp:
+		if x.Op == token.MUL {
+			if b := s.addrKey(x.X); b != "" {
+				return "*" + b
+			}
+		}
+	}
+	return ""
 }
 
 func (s *summarizer) fieldOfTerm(base *Term, name string, ty types.Type) *Term {
